@@ -125,8 +125,11 @@ func main() {
 		}
 		sc.Close()
 		if stuck {
+			// the property demands that every recorder and reader terminates: this is an observable, judged by the spec.
+			// (the goroutines of this scenario stay parked at their yield points for ever; the next scenario uses a fresh array)
 			tr.Emit(hx.M{"op": "stuck"})
-			hx.Fatal("scenario %d: goroutines did not terminate within 20000 steps", hx.Int(s, "tr"))
+			tr.Emit(hx.M{"op": "end"})
+			continue
 		}
 		// a final quiescent read by the driver itself
 		now := clk.NowMs()
